@@ -214,10 +214,13 @@ def main():
             for label, model_body, real in checks_for(text):
                 n_cases += 1
                 want = py(real)
-                try:
-                    got = run_model(text, model_body)
-                except Mismatch as e:
-                    got = [("mismatch", str(e))]
+                got = None
+                for attempt in range(2):  # a solver timeout on a loaded machine shows up as `not determined`: tried once more
+                    try:
+                        got = run_model(text, model_body)
+                        break
+                    except Mismatch as e:
+                        got = [("mismatch", str(e))]
                 norm = lambda r: (r[0], tuple(r[1]) if isinstance(r[1], list) else r[1])
                 if len(got) != 1 or norm(got[0]) != norm(want):
                     bad += 1
